@@ -1,6 +1,7 @@
 import Aurora.Lemmas.PSlice
 import Aurora.Lemmas.PSliceLocks
 import Aurora.Lemmas.PSliceMem
+import Aurora.Lemmas.PSliceMemOps
 /-!
 # C21 — Proximity-indexed peer sets behave as sets
 
@@ -181,6 +182,178 @@ theorem C21_write_preserves_snapshots (m : Aurora.PSliceMem.Mem) (hw : WF m) (h 
     read (step m p) h = read m h ∧ Stable (step m p) h ∧ WF (step m p) :=
   ⟨(step_isolated m h hs p).1, (step_isolated m h hs p).2, wf_step m hw p⟩
 
+/-! ### The real operations on the backing-array model (`Aurora/Model/PSliceMemOps.lean`)
+
+`MOp` = `Add` (single or batch, with the capacities the Go runtime picks when `append` has to grow
+as an oracle argument — any function is allowed, the model only uses `max (orc i) (len+1)`) or
+`Remove`; `opPrims ms op` = the primitive memory steps the real code performs for `op` in state
+`ms`, in program order; `applyMOp ms op` runs them; `runOps` = a history; `abs` reads every bin
+header in the heap and gives a list-model state; `toOp` forgets the oracle. -/
+
+open Aurora.PSliceMem in
+/-- **Refinement** of the list model by the memory-level operations: for every history of real
+    `Add`/`Remove` calls from `New` — any addresses, any batches, any capacity choices of the
+    runtime — reading every bin header in the heap gives exactly the state of the list model after
+    the same history, the memory is well formed, and bin `i` read through its current header is
+    bin `i` of the list model.  Hence every list-level theorem above (`C21_refines_set`,
+    `C21_nodup`, `C21_bin_correct`, sizes, iteration order) is a theorem about the memory. -/
+theorem C21_mem_refines_list (m : Nat) (base : Addr) (ops : List MOp) :
+    abs (runOps (newM m base) ops) = run (new m base) (ops.map toOp) ∧
+    WF (runOps (newM m base) ops).mem ∧
+    ∀ i, read (runOps (newM m base) ops).mem (hdr (runOps (newM m base) ops).mem i)
+        = bin (run (new m base) (ops.map toOp)) i := by
+  obtain ⟨e, hw, ha, _⟩ := ops_spec ops (newM m base) (wf_newM m base)
+  rw [abs_newM] at ha
+  rw [e]
+  refine ⟨ha, hw, ?_⟩
+  intro i
+  rw [← ha, bin_abs]; rfl
+
+open Aurora.PSliceMem in
+/-- one step of the refinement, from any well-formed memory: the abstraction commutes with the
+    operation, and well-formedness is kept. -/
+theorem C21_mem_op_refines (ms : MS) (hw : WF ms.mem) (op : MOp) :
+    abs (applyMOp ms op) = applyOp (abs ms) (toOp op) ∧ WF (applyMOp ms op).mem :=
+  ⟨(op_spec ms hw op).2.1, (op_spec ms hw op).1⟩
+
+open Aurora.PSliceMem in
+/-- the transfer spelled out for the main clause: what is *in the heap* after any history is the set
+    `added \ removed`, and the abstraction satisfies the representation invariant (each address
+    once, in its proximity bin). -/
+theorem C21_mem_refines_set (m : Nat) (base : Addr) (h1 : 1 ≤ m) (h2 : m ≤ 256) (ops : List MOp) :
+    Inv (abs (runOps (newM m base) ops)) ∧
+    ∀ x, (∃ i, x ∈ binM (runOps (newM m base) ops) i) ↔ specRun (fun _ => False) (ops.map toOp) x := by
+  obtain ⟨e, _, _⟩ := C21_mem_refines_list m base ops
+  obtain ⟨hi, hm⟩ := C21_refines_set m base h1 h2 (ops.map toOp)
+  rw [e]
+  refine ⟨hi, fun x => ?_⟩
+  rw [← hm x, ← e]
+  constructor
+  · intro ⟨i, hx⟩; exact ⟨i, by rw [bin_abs]; exact hx⟩
+  · intro ⟨i, hx⟩; exact ⟨i, by rw [← bin_abs]; exact hx⟩
+
+open Aurora.PSliceMem in
+/-- **Every memory step of the real operations is one of the two primitives** the isolation
+    theorems cover, and is *enabled* where it executes: a store into an existing array happens only
+    as `.write i a` with `len < cap` of bin `i`'s current header — at index `len`, never below it —
+    and every other store goes into a freshly allocated array that becomes bin `i`'s array
+    (`.realloc`, with `len ≤ cap ≤` array size), always for a bin index `i < maxBins`.  The state
+    after a history is the run of exactly these steps from `New`; the same for one more operation
+    from any reachable state. -/
+theorem C21_ops_emit_safe_prims (m : Nat) (base : Addr) (h1 : 1 ≤ m) (h2 : m ≤ 256) (ops : List MOp) :
+    (runOps (newM m base) ops).mem = Aurora.PSliceMem.run (init m) (opsPrims (newM m base) ops) ∧
+    EnabledSeq (init m) (opsPrims (newM m base) ops) ∧
+    ∀ op, EnabledSeq (runOps (newM m base) ops).mem (opPrims (runOps (newM m base) ops) op) ∧
+      (applyMOp (runOps (newM m base) ops) op).mem =
+        Aurora.PSliceMem.run (runOps (newM m base) ops).mem (opPrims (runOps (newM m base) ops) op) := by
+  obtain ⟨e, hw, _, hen⟩ := ops_spec ops (newM m base) (wf_newM m base)
+  have hr := inRange_newM m base h1 h2
+  refine ⟨by rw [e, runM_mem]; rfl, hen hr, ?_⟩
+  intro op
+  have hr' : InRange (runOps (newM m base) ops) := by rw [e]; exact inRange_runM _ _ hr
+  have hw' : WF (runOps (newM m base) ops).mem := by rw [e]; exact hw
+  exact ⟨(op_spec _ hw' op).2.2 hr', runM_mem _ _⟩
+
+open Aurora.PSliceMem in
+/-- where the growth oracle matters: only in the single-address path.  In the batch path
+    (`len(addrs) ≠ 1`) the pre-grow loop leaves every bin with room for all the appends the third
+    loop can make, so each of them is an in-place `.write` and the emitted primitives are the same
+    for every oracle — the Go runtime's growth policy is never consulted there.  (This is why one
+    observation of `cap()` per bin after an `Add` determines the oracle in the correspondence
+    run.) -/
+theorem C21_batch_add_no_runtime_growth (m : Nat) (base : Addr) (h1 : 1 ≤ m) (h2 : m ≤ 256)
+    (ops : List MOp) (orc orc' : Nat → Nat) (addrs : List Addr) (hb : addrs.length ≠ 1) :
+    let s := runOps (newM m base) ops
+    opPrims s (.add orc addrs) = opPrims s (.add orc' addrs) ∧
+    ∀ p, p ∈ addLoopPrims orc (addrs.zip (existsFlagsM s addrs))
+        (runM s (growPrims (addrs.zip (existsFlagsM s addrs)) (List.range s.maxBins) s)) → IsWrite p := by
+  intro s
+  obtain ⟨e, hw, _, _⟩ := ops_spec ops (newM m base) (wf_newM m base)
+  have hr : InRange s := by
+    show InRange (runOps (newM m base) ops)
+    rw [e]; exact inRange_runM _ _ (inRange_newM m base h1 h2)
+  have hw' : WF s.mem := by
+    show WF (runOps (newM m base) ops).mem
+    rw [e]; exact hw
+  exact addBatch_no_growth s hw' hr orc orc' addrs hb
+
+open Aurora.PSliceMem in
+/-- `C21_snapshot_isolated` **for the real operations**: after any history `before` of `Add`/`Remove`
+    calls take the header of any bin `i` (what `EachBin` copies under `RLock`); whatever history
+    `after` of `Add`/`Remove` calls follows, with whatever capacity choices, that header still
+    reads exactly bin `i` of the list model at the moment of the snapshot. -/
+theorem C21_snapshot_isolated_ops (m : Nat) (base : Addr) (before after : List MOp) (i : Nat) :
+    read (runOps (runOps (newM m base) before) after).mem (hdr (runOps (newM m base) before).mem i)
+      = bin (run (new m base) (before.map toOp)) i := by
+  obtain ⟨_, hw, hb⟩ := C21_mem_refines_list m base before
+  rw [← hb i, runOps_eq _ (runOps (newM m base) before), runM_mem]
+  by_cases hi : i < (runOps (newM m base) before).mem.bins.length
+  · exact run_isolated _ _ _ (stable_of_wf _ hw i hi)
+  · rw [hdr_of_ge _ i (by omega), read_default, read_default]
+
+open Aurora.PSliceMem in
+/-- Clause "iteration concurrent with updates", functional part.  The memory-level `EachBin` /
+    `EachBinRev` copy the header of a bin when they reach it and then load element `k` of that
+    header from the heap *as it is at that moment*, for `k = 0 … len-1`, running the callback in
+    between; between two loads any finite sequence of complete `Add`/`Remove` operations may be
+    applied to the slice (`OpsOnly`: by the callback or by other goroutines; the rest of the state
+    `σ` is unconstrained).  From any state reachable from `New` by real operations:
+    * the whole iteration equals the list-level iteration `eachBin`/`eachBinRev` over the
+      abstraction, in which the bin is an immutable list taken when the bin is reached — so a bin
+      visited later sees the later state;
+    * for each bin, the loop over the header copied in state `st` is the loop over
+      `bin (abs (get st)) i`: exactly the peers bin `i` had when its header was read, in that
+      order, with the same stop / next / error behaviour, whatever the interleaved operations do.
+    Iteration is linearizable per bin at the moment the bin's header is read. -/
+theorem C21_iteration_snapshot_semantics {σ : Type} (get : σ → MS) (pf : σ → Addr → Nat → σ × Ctl)
+    (hops : OpsOnly get pf) (st : σ)
+    (hreach : ∃ m base ops, get st = runOps (newM m base) ops) :
+    eachBinM get pf st = eachBin (fun st => abs (get st)) pf st ∧
+    eachBinRevM get pf st = eachBinRev (fun st => abs (get st)) pf st ∧
+    ∀ i, iterPeersM get pf i (hdr (get st).mem i) (hdr (get st).mem i).len 0 st
+        = iterPeers pf i (bin (abs (get st)) i) st := by
+  obtain ⟨m, base, ops, e⟩ := hreach
+  have hw : WF (get st).mem := by rw [e]; exact (C21_mem_refines_list m base ops).2.1
+  have hp := opsOnly_primsOnly get pf hops
+  refine ⟨eachBinsM_eq get pf hp _ st hw, eachBinsM_eq get pf hp _ st hw, ?_⟩
+  intro i
+  rw [bin_abs]; unfold binM
+  by_cases hi : i < (get st).mem.bins.length
+  · have := iterPeersM_eq get pf hp i (hdr (get st).mem i) (read (get st).mem (hdr (get st).mem i))
+      (read_length _ hw i) (hdr (get st).mem i).len 0 st (by omega) (stable_of_wf _ hw i hi) rfl
+    simpa using this
+  · rw [hdr_of_ge _ i (by omega), read_default]; rfl
+
+open Aurora.PSliceMem in
+/-- the same at the granularity of single memory steps (an element load may also fall *inside*
+    somebody's `Add`/`Remove`, which holds the write lock but not the reader's attention): between two
+    loads the memory changes by any sequence of primitive steps; from any well-formed memory. -/
+theorem C21_iteration_snapshot_midop {σ : Type} (get : σ → MS) (pf : σ → Addr → Nat → σ × Ctl)
+    (hp : PrimsOnly get pf) (st : σ) (hw : WF (get st).mem) (is : List Nat) :
+    eachBinsM get pf is st = eachBins (fun st => abs (get st)) pf is st :=
+  eachBinsM_eq get pf hp is st hw
+
+open Aurora.PSliceMem in
+/-- what the callback is called with: instrument any callback with a log of its arguments; for the
+    bin whose header is copied in state `st` (reachable by real operations) the calls are a prefix of
+    `bin s i` — the peers of bin `i` in the list-model state `s` at that moment, in the order of `s`,
+    each tagged `i` — and all of `bin s i` if the callback never asks to stop / skip / fail, no
+    matter which `Add`/`Remove` operations run between the visits. -/
+theorem C21_iteration_visits {σ : Type} (get : σ → MS) (pf : σ → Addr → Nat → σ × Ctl)
+    (hops : OpsOnly get pf) (st : σ) (m : Nat) (base : Addr) (ops : List MOp)
+    (hreach : get st = runOps (newM m base) ops) (i : Nat) (log : List (Nat × Addr)) :
+    ∃ k, k ≤ (bin (run (new m base) (ops.map toOp)) i).length ∧
+      (iterPeersM (fun sl : σ × List (Nat × Addr) => get sl.1) (withLog pf) i
+          (hdr (get st).mem i) (hdr (get st).mem i).len 0 (st, log)).1.2
+        = log ++ ((bin (run (new m base) (ops.map toOp)) i).take k).map (fun p => (i, p)) ∧
+      ((∀ st p, (pf st p i).2 = .go) → k = (bin (run (new m base) (ops.map toOp)) i).length) := by
+  have h := (C21_iteration_snapshot_semantics (fun sl : σ × List (Nat × Addr) => get sl.1) (withLog pf)
+    (opsOnly_withLog get pf hops) (st, log) ⟨m, base, ops, hreach⟩).2.2 i
+  have hb : bin (abs (get st)) i = bin (run (new m base) (ops.map toOp)) i := by
+    rw [hreach, (C21_mem_refines_list m base ops).1]
+  rw [h, hb]
+  exact iterPeers_log pf i _ st log
+
 /-! Non-vacuity. -/
 open Aurora.PSliceMem in
 example : read (Aurora.PSliceMem.run (init 2) [.realloc 0 [[1#8], []] 1 2, .write 0 [2#8]]) ⟨1, 1, 2⟩ = [[1#8]] := by
@@ -196,6 +369,34 @@ example : ¬ Mem (run (new 2 [0#8]) [.add [[0x80#8], [0x01#8]], .remove [0x80#8]
   rw [(C21_refines_set 2 [0#8] (by decide) (by decide) _).2]
   simp [specRun, specStep]
 example : shallowestEmpty (add (new 2 [0#8]) [[0x01#8]]) = some 0 := by decide
+/-! Non-vacuity of the memory-level theorems: a concrete history with a grown append, an in-place
+    append, a batch with a pre-grow and a copy-on-remove; an old snapshot; a callback that removes
+    the peer it is visiting (an `OpsOnly` callback), run over the memory. -/
+open Aurora.PSliceMem in
+example : (abs (runOps (newM 2 [0#8]) [.add (fun _ => 4) [[0x80#8]], .add (fun _ => 0) [[0x81#8]],
+      .add (fun _ => 0) [[0x82#8], [0x40#8], [0x82#8]], .remove [0x80#8]])).bins
+    = [[[0x82#8], [0x81#8]], [[0x40#8]]] := by decide
+open Aurora.PSliceMem in
+example : ((runOps (newM 2 [0#8]) [.add (fun _ => 4) [[0x80#8]], .add (fun _ => 0) [[0x81#8]],
+      .add (fun _ => 0) [[0x82#8], [0x40#8], [0x82#8]], .remove [0x80#8]]).mem.bins)
+    = [⟨3, 2, 2⟩, ⟨2, 1, 1⟩] := by decide
+open Aurora.PSliceMem in
+example : opsPrims (newM 2 [0#8]) [.add (fun _ => 4) [[0x80#8]], .add (fun _ => 0) [[0x81#8]]]
+    = [.realloc 0 [[0x80#8], [], [], []] 1 4, .write 0 [0x81#8]] := by decide
+open Aurora.PSliceMem in
+example : read (runOps (runOps (newM 2 [0#8]) [.add (fun _ => 4) [[0x80#8]]])
+      [.add (fun _ => 0) [[0x81#8]], .remove [0x80#8]]).mem ⟨1, 1, 4⟩ = [[0x80#8]] := by decide
+open Aurora.PSliceMem in
+/-- the single-address path does depend on the oracle (contrast with `C21_batch_add_no_runtime_growth`) -/
+example : opPrims (newM 2 [0#8]) (.add (fun _ => 4) [[0x80#8]]) ≠ opPrims (newM 2 [0#8]) (.add (fun _ => 1) [[0x80#8]]) := by
+  decide
+open Aurora.PSliceMem in
+example : OpsOnly (σ := MS) id (fun st p _ => (applyMOp st (.remove p), .go)) :=
+  fun _ p _ => ⟨[.remove p], rfl⟩
+open Aurora.PSliceMem in
+example : (abs (eachBinM (σ := MS) id (fun st p _ => (applyMOp st (.remove p), .go))
+      (runOps (newM 2 [0#8]) [.add (fun _ => 0) [[0x80#8], [0x81#8], [0x40#8]]])).1).bins = [[], []] := by
+  decide
 open Aurora.LockSet in
 example : Reachable ⟨[(1, .r), (2, .r)]⟩ :=
   .step (.step .init (.acqR _ 2 (by simp))) (.acqR _ 1 (by simp))
